@@ -105,12 +105,14 @@ class RelaxationTensor(SuperOperator, Secular, Saveable):
         if self.data.ndim == 4:
             N = self.data.shape[0]
             
-            self.secular_GG = numpy.einsum("ijij->ij", self.data)
+            # einsum returns a view of the tensor: the rates get their own
+            # array, otherwise zeroing their diagonal zeroes R[a,a,a,a]
+            self.secular_GG = numpy.einsum("ijij->ij", self.data).copy()
             for ii in range(N):
                 self.secular_GG[ii,ii] = 0.0
         else:
             N = self.data.shape[1]
-            self.secular_GG = numpy.einsum("hijij->hij", self.data)            
+            self.secular_GG = numpy.einsum("hijij->hij", self.data).copy()
             for ii in range(N):
                 self.secular_GG[:,ii,ii] = 0.0
 
